@@ -86,6 +86,9 @@ func main() {
 			die(2, "usage: verif selftest determinism")
 		}
 		os.Exit(cmdSelftest(os.Args[2:]))
+	case "shrink":
+		// debugging aid: type-level reduction of the case of a replay file (prints, writes nothing)
+		os.Exit(cmdShrink(os.Args[2]))
 	case "gen":
 		// debugging aid: print generated programs
 		os.Exit(cmdGen(os.Args[2:]))
